@@ -100,7 +100,7 @@ def main():
         },
         "engines": ENGINES,
         "checks": checks,
-        "notes": "Technique family: runtime monitoring. See DESIGN.md. Exit codes of every check: 0 held on what was observed, 1 VIOLATION, 2 INCONCLUSIVE (monitor floors not met).",
+        "notes": "Technique family: runtime monitoring. See DESIGN.md. Exit codes of every check: 0 held on what was observed, 1 VIOLATION, 2 INCONCLUSIVE (monitor floors not met). Known findings (genuine defects recorded, not repaired; keyed by mechanism): /verif/known_findings.json - C12 dead-node-results-lock, C20 event-after-consolidation; replays of every defect as first reproduced: /verif/findings/.",
         "not_applicable": [{"property_id": p["id"], "reason": "check not yet built in this round (planned; see DESIGN.md section 4)"} for p in props if p["id"] not in CHECKS],
     }
     json.dump(m, open(os.path.join(VERIF, "MANIFEST.json"), "w"), indent=1)
